@@ -199,11 +199,22 @@ def differential_case(ext, n_shards, per_shard, T, comp, take=None, decl="int32"
                 del it
                 gc.collect()
                 box["out"] = out
+        import os
+        import time
+        base_threads = len(os.listdir("/proc/self/task"))
         th = threading.Thread(target=go, daemon=True)
         th.start()
         th.join(30)
         if th.is_alive():
             return f"native reader blocked for 30 s ({n_shards} shards, {T} threads, take={take}, compression {comp or 'none'})"
+        for _ in range(30):
+            left = len(os.listdir("/proc/self/task")) - base_threads
+            if left <= 0:
+                break
+            time.sleep(0.1)
+        if left > 0:
+            return (f"after {'an early drop after ' + str(take) + ' examples' if take is not None else 'a full pass'} "
+                    f"({n_shards} shards, {T} threads) {left} native reader thread(s) are still alive (leaked)")
         want = py if take is None else py[:take]
         if box.get("out") != want:
             return (f"native reader ({n_shards} shards x {per_shard}, {T} threads, compression {comp or 'none'}, take={take}, dtype {decl}) "
@@ -211,9 +222,28 @@ def differential_case(ext, n_shards, per_shard, T, comp, take=None, decl="int32"
     return None
 
 
+def run_diff_subprocess(so_path, case, timeout=90):
+    """Each differential case runs in its own process: a native deadlock can hold the GIL and freeze the interpreter."""
+    import json
+    import subprocess
+    import sys
+    try:
+        r = subprocess.run([sys.executable, "-m", "vtlib.checks.c15", so_path, json.dumps(case)], capture_output=True, text=True,
+                           timeout=timeout, cwd=str(common.VERIF))
+    except subprocess.TimeoutExpired:
+        n_shards, per, T, comp, take, decl = case
+        return (f"the process reading {n_shards} shards with {T} native threads (take={take}, compression {comp or 'none'}) "
+                f"froze for more than {timeout} s (deadlock in the native reader)")
+    for line in r.stdout.split("\n"):
+        if line.startswith("RESULT "):
+            return json.loads(line[7:])
+    return f"differential sub-process failed: {r.stderr[-300:]}"
+
+
 def diff_part(tier):
     st = Stats()
-    ext, info = rustlab.build_extension()
+    so_path, info = rustlab.build_so()
+    ext = rustlab.load_so(so_path)
     cases = []
     comps = ext.RustIter.supported_compressions()
     for comp in (comps if tier == "thorough" else comps[:2]):
@@ -222,15 +252,18 @@ def diff_part(tier):
                 cases.append((n_shards, per, T, comp, None, "int32"))
         cases.append((5, 2, 2, comp, 3, "int32"))
         cases.append((4, 1, 8, comp, 1, "int32"))
+        cases.append((6, 1, 2, comp, 1, "int32"))
+        cases.append((3, 1, 3, comp, 2, "int32"))
     cases.append((3, 2, 2, "", None, ">i4"))
     cases.append((3, 2, 2, "", None, "float16"))
     for c in cases:
         st.paths += 1
         st.proves += 1
-        bad = differential_case(ext, *c)
+        bad = run_diff_subprocess(so_path, list(c))
         if bad:
-            st.cex.append(dict(msg=bad, model={}, info=dict(kind="native-differs-from-python" + (":big-endian" if c[5].startswith(">") else ""),
-                                                            case=list(c))))
+            k = ("native-threads-leak-on-early-drop" if "still alive" in bad else "native-reader-freezes" if ("froze" in bad or "blocked" in bad)
+                 else "native-differs-from-python" + (":big-endian" if c[5].startswith(">") else ""))
+            st.cex.append(dict(msg=bad, model={}, info=dict(kind=k, case=list(c))))
         else:
             st.proved += 1
             st.concrete_proves += 1
@@ -238,10 +271,43 @@ def diff_part(tier):
     return st
 
 
+def release_part(tier):
+    """(F) Python side, symx: whatever number of examples the consumer takes before it drops the iterator (symbolic), every
+    native iterator object that was created has been released (__exit__) afterwards - otherwise its threads and shards stay."""
+    from .. import iterscen
+    from ..symx import explore
+    st_total = Stats()
+    for layout in ("two-shards", "singles", "short-last"):
+        for repeat in (0, 1):
+            for shuffled in (0, 1):
+                with common.scratch_dir("vt15f_") as tmp:
+                    d, table, written = iterscen.build(tmp, layout)
+                    N = len(written["train"])
+
+                    def scen(e, d=d, table=table, N=N, repeat=repeat, shuffled=shuffled, layout=layout):
+                        k = e.fresh_int("take", 0, N + (N if repeat else 0))
+                        T = e.fresh_int("T", 1, 3)
+                        mon = iterscen.Monitor()
+                        gen = iterscen.stream(e, d, table, "rust", shuffle=(1 if shuffled else 0), T=T, repeat=bool(repeat), mon=mon)
+                        got = 0
+                        for _ in gen:
+                            got += 1
+                            if got >= k:
+                                break
+                        gen.close()
+                        insts = mon.rust.instances
+                        leaked = [i for i, x in enumerate(insts) if x.entered > x.exited]
+                        e.prove(not leaked, f"python-side: after the consumer dropped the iterator having taken {got} examples ({layout}, repeat={bool(repeat)}, "
+                                            f"shuffled={bool(shuffled)}) {len(leaked)} native iterator(s) were entered but never released",
+                                dict(kind="python-side-native-iterator-not-released"))
+                    st_total.merge(explore(scen))
+    return st_total
+
+
 def _part(which):
     common.import_sedpack()
     tier = which[1]
-    return {"mir": mir_part, "todict": todict_part, "diff": diff_part}[which[0]](tier)
+    return {"mir": mir_part, "todict": todict_part, "diff": diff_part, "release": release_part}[which[0]](tier)
 
 
 def stall_replay(seconds):
@@ -267,7 +333,7 @@ def stall_replay(seconds):
 
 def run(tier, seed):
     common.import_sedpack()
-    st, per_cell, errors = par.run_cells(_part, [("mir", tier), ("todict", tier), ("diff", tier)])
+    st, per_cell, errors = par.run_cells(_part, [("mir", tier), ("todict", tier), ("diff", tier), ("release", tier)])
     viols, seen = [], set()
     for c in st.cex:
         info = c.get("info") or {}
@@ -311,20 +377,34 @@ def replay(case):
             if out != py:
                 return True, f"real extension with a consumer pausing {secs} s after the first example yields {out}, the Python reader {py}"
         return False, "a pausing consumer still gets the Python reader's sequence"
-    ext, _ = rustlab.build_extension()
-    if kind.startswith("native-differs"):
-        bad = differential_case(ext, *case["case"])
+    so_path, _ = rustlab.build_so()
+    if kind.startswith("native-differs") or kind.startswith("native-"):
+        bad = run_diff_subprocess(so_path, case["case"])
         return bad is not None, bad or "equal"
     if kind.startswith("to_dict-differs"):
-        bad = differential_case(ext, 3, 2, 2, "", None, case["decl"])
+        bad = run_diff_subprocess(so_path, [3, 2, 2, "", None, case["decl"]])
         return bad is not None, bad or "equal on the real extension"
+    if kind.startswith("python-side"):
+        st = release_part("quick")
+        return bool(st.cex), (st.cex[0]["msg"] if st.cex else "released")
     if kind.startswith("protocol-") or kind.startswith("index-step"):
         n, T, nexts = case.get("n", 5), case.get("T", 2), case.get("nexts")
         take = None if nexts is None or nexts > n else max(nexts, 1)
         for comp in ("",):
-            bad = differential_case(ext, max(n, 1), 1, T, comp, take)
+            bad = run_diff_subprocess(so_path, [max(n, 1), 1, T, comp, take, "int32"])
             if bad:
                 return True, bad
         # crate level: the crate's own deterministic test harness
         return False, "the rebuilt extension agrees with the Python reader on this configuration"
     return False, "unknown case"
+
+
+if __name__ == "__main__":
+    import json
+    import sys
+    common.import_sedpack()
+    _ext = rustlab.load_so(sys.argv[1])
+    _case = json.loads(sys.argv[2])
+    print("RESULT " + json.dumps(differential_case(_ext, *_case)), flush=True)
+    import os
+    os._exit(0)
